@@ -640,6 +640,7 @@ func runHashCase(ci interface{}, rec *pbt.Rec) *pbt.Failure {
 func checkC14() *pbt.Check {
 	return &pbt.Check{
 		ID:          "C14",
+		Part:        "pairs",
 		Rule:        "pairs of admissible events of one type and nonce differing in exactly one field (every field of the five event types, external addresses with and without 0x), plus pairs whose adjacent variable-length fields are shifted across the field boundary (coin id 1|0x30.. vs 10|..); both are applied with quorum on twin instances and the pair counts only if the resulting state differs; non-trivial = pairs that pass validation and differ in effect; distinct = (field, chain, values)",
 		Gen:         genHashCase,
 		New:         func() interface{} { return &HashCase{} },
